@@ -127,6 +127,33 @@ func drawInputs(t *rapid.T, nin int) []string {
 	return res
 }
 
+// manyOutputs builds a circuit with n one-bit outputs (output i = XOR of two
+// of the 16 input wires): the output line of its Bristol header is longer than
+// any fixed line buffer (64 KiB at n = 32766).
+func manyOutputs(n int) Base {
+	var b Base
+	b.Circ.In = []int{8, 8}
+	b.In = []ArgD{{Name: NameD{S: "i0"}, T: TypeD{K: "uint", Bits: 8}}, {Name: NameD{S: "i1"}, T: TypeD{K: "uint", Bits: 8}}}
+	for i := 0; i < n; i++ {
+		b.Circ.Out = append(b.Circ.Out, 1)
+		b.Out = append(b.Out, ArgD{Name: NameD{S: fmt.Sprintf("o%d", i)}, T: TypeD{K: "uint", Bits: 1}})
+		b.Circ.Gates = append(b.Circ.Gates, ref.Gate{ref.XOR, i % 16, (i*7 + 3) % 16, 16 + i})
+	}
+	return b
+}
+
+// genRoundTripBristol is genRoundTrip plus, rarely, a circuit with tens of
+// thousands of outputs (one input assignment: decoding 32766 outputs is slow).
+func genRoundTripBristol(t *rapid.T) RTCase {
+	if rapid.IntRange(0, 399).Draw(t, "manyoutputs") == 0 {
+		var cs RTCase
+		cs.Base = manyOutputs(rapid.SampledFrom([]int{32765, 32766, 32767}).Draw(t, "noutputs"))
+		cs.Inputs = []string{gen.BitsOf(gen.DrawBits(t, 16, "in"))}
+		return cs
+	}
+	return genRoundTrip(t)
+}
+
 func genRoundTrip(t *rapid.T) RTCase {
 	var cs RTCase
 	cs.Base = drawBase(t, rtOpts(t))
@@ -486,7 +513,7 @@ func TestRoundTripMPCLC(t *testing.T) {
 }
 
 func TestRoundTripBristol(t *testing.T) {
-	ev.Check(t, ev.Get(prop), "bristol-roundtrip", genRoundTrip, runRoundTripBristol)
+	ev.Check(t, ev.Get(prop), "bristol-roundtrip", genRoundTripBristol, runRoundTripBristol)
 }
 
 func TestReplay(t *testing.T) { ev.Replay(t, ev.Get(prop)) }
